@@ -2,6 +2,7 @@ package types
 
 import (
 	"encoding/json"
+	"math/big"
 	"strconv"
 
 	sdkmath "cosmossdk.io/math"
@@ -74,29 +75,35 @@ func ParseBool(v string) (Bool, error) {
 // ratio: swap rate
 // inputScale: the decimal scale of input amount
 // outputScale: the decimal scale of output amount
+//
+// It returns the amount of input to burn and the amount of output to mint:
+//
+//	minted = floor(input * ratio * 10^outputScale / 10^inputScale)
+//	burned = ceil(minted * 10^inputScale / (ratio * 10^outputScale))
+//
+// so that 0 <= burned <= input and the minted amount is never worth more than
+// the burned amount at the given ratio; the unconvertible remainder
+// (input - burned) stays with the payer. All arithmetic is exact (integers).
 func LossLessSwap(input sdkmath.Int, ratio sdkmath.LegacyDec, inputScale, outputScale uint32) (sdkmath.Int, sdkmath.Int) {
-	inputDec := sdkmath.LegacyNewDecFromInt(input)
-	scaleFactor := int64(inputScale) - int64(outputScale)
-	var scaleMultipler, scaleReverseMultipler sdkmath.LegacyDec
-
-	if scaleFactor >= 0 {
-		scaleMultipler = sdkmath.LegacyNewDecWithPrec(1, scaleFactor)
-		scaleReverseMultipler = sdkmath.LegacyNewDecFromInt(sdkmath.NewIntWithDecimal(1, int(scaleFactor)))
-	} else {
-		scaleMultipler = sdkmath.LegacyNewDecFromInt(sdkmath.NewIntWithDecimal(1, int(-scaleFactor)))
-		scaleReverseMultipler = sdkmath.LegacyNewDecWithPrec(1, -scaleFactor)
+	if !input.IsPositive() || !ratio.IsPositive() {
+		return sdkmath.ZeroInt(), sdkmath.ZeroInt()
 	}
 
-	// Calculate output
-	outputDec := inputDec.Clone().Mul(scaleMultipler).Mul(ratio)
-	outputInt := outputDec.Clone().TruncateDec()
-
-	// Adjust input if there are decimal places in the output
-	if !outputDec.Equal(outputInt) {
-		outputFrac := outputDec.Clone().Sub(outputInt)
-		inputFrac := outputFrac.Mul(scaleReverseMultipler)
-		input = inputDec.Sub(inputFrac).TruncateInt()
+	pow10 := func(n uint32) *big.Int {
+		return new(big.Int).Exp(big.NewInt(10), big.NewInt(int64(n)), nil)
 	}
+	// ratio = ratio.BigInt() / 10^Precision
+	num := new(big.Int).Mul(ratio.BigInt(), pow10(outputScale))
+	den := pow10(inputScale + sdkmath.LegacyPrecision)
 
-	return input, outputInt.TruncateInt()
+	// minted = floor(input * num / den)
+	minted := new(big.Int).Mul(input.BigInt(), num)
+	minted.Quo(minted, den)
+
+	// burned = ceil(minted * den / num) <= input
+	burned := new(big.Int).Mul(minted, den)
+	burned.Add(burned, new(big.Int).Sub(num, big.NewInt(1)))
+	burned.Quo(burned, num)
+
+	return sdkmath.NewIntFromBigInt(burned), sdkmath.NewIntFromBigInt(minted)
 }
